@@ -30,6 +30,15 @@ PROPS = {
         fallback_kani=[dict(harness='bnd_skip_matches_ref', module='name_wire',
                             bound='buffers <= 258 octets whose first chunk has <= 6 labels',
                             what='skip_compressed agrees with an executable RFC 1035 first-chunk reference on acceptance and length')],
+        native=[dict(bin='bnd_name_wire', when='quick',
+                     bound='all buffers of <= 5 octets over the 12-symbol alphabet {0,1,2,3,3f,40,41,bf,c0,c1,c2,ff} at every start offset 0..=len+1 '
+                           '(1.9M cases); structured buffers up to ~400 octets: label totals 0-4/62-67/125-131/189-194/250-259 in 3 label shapes '
+                           '(63-octet labels, 1-octet labels = up to 128 labels, mixed), a 64 / 0x80 length octet, 7 kinds of earlier content, '
+                           'terminators null / null+junk / nothing / lone 0xc0 / 0xff / pointers to ~10 targets (backwards, chunk start, itself, forwards, 0x3fff), '
+                           'three-chunk pointer chains totalling 250..259 octets, ~10 start offsets each',
+                     what='public Name::{try_from_compressed, skip_compressed, try_from_uncompressed(_all), validate_uncompressed(_all)} vs '
+                          'reference decoders written from RFC 1035 3.1/4.1.4 (bounded/src/wire_ref.rs): no panic, same acceptance, same name '
+                          '(wire form and label list), same first-chunk length; error kinds not compared')],
         unverified=['body of unsafe fn new_boxed_name (allocation, copy_nonoverlapping, fat-pointer cast): its documented '
                     'safety precondition is proved at every extracted call site, the body itself is trusted',
                     'the one-line public wrappers Name::try_from_compressed / skip_compressed / validate_* in src/name/mod.rs '
@@ -50,6 +59,15 @@ PROPS = {
         verus=[dict(unit='reader', which='all'), dict(unit='name_wire', which='all'), dict(unit='dns_types', which='all')],
         kani=[],
         cex={'name_wire.skip_compressed_name': [('name_wire', 'cex_skip_len_le_buf')]},
+        native=[dict(bin='bnd_reader', when='quick',
+                     bound='headers: all 2^16 values of the two flag octets + every value of each other header octet; messages: 12-octet header + '
+                           '1 piece from a menu of 336 questions/records (6 owners: root, one label, label+pointer to 12, two pointers into the header, '
+                           'lone 0xc0; 2 questions; 17 type/class/RDATA shapes of A IN/CH/unknown class, NS, MX, TXT, OPT, unknown type, plain and compressed, '
+                           'valid and malformed; RDLENGTH exact/-1/+1; TTL 3600 and 0x80000001) or 2 pieces (any x 18 representatives, both orders), '
+                           'each cut at EVERY length and with one extra octet; every operation at every read position reachable through successful operations (9.3M operation checks)',
+                     what='public Reader API (TryFrom, header accessors, read_question, skip_question, read_rr, skip_rr, peek_rr + PeekRr accessors/owner/skip/parse, '
+                          'mark/rewind, at_eom, message_to_cursor) vs a reference RFC 1035 4.1 decoder (bounded/src/wire_ref.rs): no panic, position unchanged on Err, '
+                          'fields (owner, type, class, TTL, decompressed RDATA) and end position equal to the reference on Ok, same acceptance, read_rr == peek_rr().parse()')],
         unverified=['Rdata::read body (assumed contract here; see C18)', 'fmt::Debug impl of Reader (calls the verified accessors)'],
         assumptions=['slice lengths are <= isize::MAX'],
     ),
